@@ -156,6 +156,9 @@ class Oracle:
         self.var_domains = [self._var_domain(i) for i in range(len(ir["vars"]))]
 
     def _raw_domain(self, v):
+        if v.get("plain"):
+            T = {"int": int, "str": str}[v["type"]]
+            return [x for x in v["dom"] if type(x) is T]
         T = type_of(v["type"], self.classes)
         return [self.objs[j] for j in v["dom"] if j >= 0 and isinstance(self.objs[j], T)]
 
@@ -287,6 +290,8 @@ class Builder:
         self.noise = W.Other(a=1)
 
     def domain_values(self, v):
+        if v.get("plain"):
+            return list(v["dom"])
         return [self.noise if j < 0 else self.objs[j] for j in v["dom"]]
 
     def var(self, i):
@@ -302,7 +307,8 @@ class Builder:
                 dom = (x for x in values)
             else:
                 dom = values
-            node = let(type_of(v["type"], self.classes), dom, name=f"v{i}")
+            vtype = {"int": int, "str": str}[v["type"]] if v.get("plain") else type_of(v["type"], self.classes)
+            node = let(vtype, dom, name=f"v{i}")
             if v.get("sub"):
                 self.var_nodes[i] = node  # while building the sub-query's own condition
                 cond = self.cond(v["sub"]["cond"])
